@@ -13,6 +13,7 @@ import (
 
 func RunStmts(ctx *Task, nodes ast.Stmts) *errchain.PlError {
 	for _, node := range nodes {
+		verifStep(ctx, 1)
 		if err := RunExpr(ctx, node); err != nil {
 			ctx.procExit = true
 			return err
@@ -118,6 +119,7 @@ func RunForStmt(ctx *Task, stmt *ast.ForStmt) *errchain.PlError {
 	}
 
 	for {
+		verifStep(ctx, 2)
 		if stmt.Cond != nil {
 			err := RunExpr(ctx, stmt.Cond)
 			if err != nil {
@@ -189,6 +191,7 @@ func RunForInStmt(ctx *Task, stmt *ast.ForInStmt) *errchain.PlError {
 				"inner type error", stmt.Iter.StartPos())
 		}
 		for _, x := range iter {
+			verifStep(ctx, 2)
 			char := string(x)
 			if stmt.Varb.NodeType != ast.TypeIdentifier {
 				return err
@@ -216,6 +219,7 @@ func RunForInStmt(ctx *Task, stmt *ast.ForInStmt) *errchain.PlError {
 				"inner type error", stmt.Iter.StartPos())
 		}
 		for x := range iter {
+			verifStep(ctx, 2)
 			ctx.stackCur.Clear()
 			ctx.SetVarb(stmt.Varb.Identifier().Name, V{x, ast.String})
 			if stmt.Body != nil {
@@ -238,6 +242,7 @@ func RunForInStmt(ctx *Task, stmt *ast.ForInStmt) *errchain.PlError {
 				"inner type error", stmt.Iter.StartPos())
 		}
 		for _, x := range iter {
+			verifStep(ctx, 2)
 			ctx.stackCur.Clear()
 			x, dtype := ast.DectDataType(x)
 			if dtype == ast.Invalid {
@@ -292,6 +297,7 @@ func RunContinueStmt(ctx *Task, stmt *ast.ContinueStmt) *errchain.PlError {
 
 // RunExpr for all expr.
 func RunExpr(ctx *Task, node *ast.Node) *errchain.PlError {
+	verifStep(ctx, 0)
 	// TODO
 	// 存在个别 node 为 nil 的情况
 	if node == nil {
